@@ -6,7 +6,7 @@ from protocol import from_real
 import h2bars_util as U
 
 ID = "C08"
-LEAN_MODULE = ["SCoda.Props.C08", "SCoda.Props.Purity", "SCoda.Props.C16b", "SCoda.Props.Strong589", "SCoda.Props.WrapTie", "SCoda.Props.RelTie2"]
+LEAN_MODULE = ["SCoda.Props.C08", "SCoda.Props.Purity", "SCoda.Props.C16b", "SCoda.Props.Strong589", "SCoda.Props.WrapTie", "SCoda.Props.RelTie2", "SCoda.Props.HeapTie2"]
 CLAUSES = [
     ("at most one piece more than capacities; no piece is empty; the loop always terminates", ["SCoda.C08.count", "SCoda.C08.nonempty", "SCoda.C08.split_total"]),
     ("every piece except the last lasts exactly its capacity", ["SCoda.C08.exact"]),
@@ -32,6 +32,8 @@ CLAUSES = [
      "(purity typing over facts regenerated from the source, kernel-checked certificate) and the pieces are fresh (C16b); in the value model the "
      "source is an immutable argument; observed on the real objects by the oracle's `pure` clause from five wrapper states",
      ["SCoda.Purity.purity_cert_closed", "SCoda.Purity.routes_write_nothing_shared", "SCoda.Purity.purity_routes_seen", "SCoda.C16.derivations_return_fresh"]),
+    ("the source sequence is not changed, BY TRANSLATION: the statement-by-statement identity translation of RelativeSequence.split (Gen/HeapFns2.lean) writes no cell that existed when it was called — the receiver's list object holds the same message objects with the same field values afterwards — on every heap and for every list of capacities, and it returns normally; Sequence.split on top of it changes at most the source's own wrapper cell (a stale relative view is regenerated and stored), never a view, a list or a message of the source",
+     ["SCoda.HeapTie2.relativeSequenceSplit_frame", "SCoda.HeapTie2.relativeSequenceSplit_receiver", "SCoda.HeapTie2.relativeSequenceSplit_ok", "SCoda.HeapTie2.sequenceSplit2_fresh"]),
 ]
 LEVEL = "proof"
 RULE = ("well-formed multi-channel sequences (<=6 notes, 2-3 channels, notes spanning several boundaries, events exactly on "
